@@ -218,7 +218,7 @@ def parse_playback_tests(out):
     return tests
 
 
-def kani_replay_batch(scratch, failures, timeout=1500):
+def kani_replay_batch(scratch, failures, timeout=600):
     """failures: [(full harness name, failed-check message)]. For each, obtain Kani's concrete counterexample,
     write it as a #[test] into the harness module of the scratch copy and run all of them natively in one
     `cargo kani playback` (real crate code; stubs are NOT applied). Returns {(name,msg): dict(reproduced, text, note)}."""
